@@ -3980,7 +3980,8 @@ def fix_raise_missing_from(source: str) -> str:
     except {{exception}} as error:
         raise {{something}} from error
     """
-    yield from processing.find_replace(source, find, replace)
+    # A bare raise has nothing to chain from
+    yield from processing.find_replace(source, find, replace, something=ast.expr)
 
 
 @processing.fix
